@@ -11,15 +11,21 @@ import ValidaProofs.Lemmas.C20TypeFmt
 namespace ValidaProofs
 open Valida ValidaGen Valida.TypeFmt Valida.Repr ValidaProofs.C20T
 
-/-- literals whose `repr` the model defines outright: None, bools, ints, type objects, ASCII strings -/
+-- STATEMENT CHANGED: `repr` of an int with more than 4300 digits raises ValueError (CPython ≥ 3.11,
+-- `sys.get_int_max_str_digits()`); counterexample `.int (10^4300)`. Ints are bounded by `10^4300`.
+/-- literals whose `repr` the model defines outright: None, bools, ints within the digit limit of
+    int-to-text conversion, type objects, ASCII strings -/
 def PlainLit : PyVal → Prop
   | .none => True
   | .bool _ => True
-  | .int _ => True
+  | .int n => n.natAbs < 10 ^ 4300
   | .type t => t ≠ .obj
   | .str s => ∀ c ∈ s.toList, c.toNat < 127
   | _ => False
 
+-- STATEMENT CHANGED: `lenEq`, `lenIn`, `lenOther` bound every integer argument by `10^4300`: `repr` /
+-- `str` of an int with more than 4300 digits raises ValueError; counterexample
+-- `ValueLength.equal_to(10^4300)`, whose text is an error.
 /-- the conditions `get_always_applicable_type_like_conditions` collects, with arguments as the DSL
     stores them for the C20 domain -/
 inductive TypeLike : Leaf Arg → Prop
@@ -31,13 +37,14 @@ inductive TypeLike : Leaf Arg → Prop
       (ht : ∀ t ∈ ts, t ≠ .obj) :
       TypeLike { cls := cls, fn := "in_", args := [], kwargs := [("value", .lit (.list (ts.map PyVal.type)))] }
   /-- `ValueLength.equal_to(n)` -/
-  | lenEq (n : Int) :
+  | lenEq (n : Int) (hn : n.natAbs < 10 ^ 4300) :
       TypeLike { cls := .valueLength, fn := "equal_to", args := [], kwargs := [("value", .lit (.int n))] }
   /-- `ValueLength.in_([n…])` -/
-  | lenIn (ns : List Int) :
+  | lenIn (ns : List Int) (hn : ∀ n ∈ ns, n.natAbs < 10 ^ 4300) :
       TypeLike { cls := .valueLength, fn := "in_", args := [], kwargs := [("value", .lit (.list (ns.map PyVal.int)))] }
   /-- any other length comparison with integer arguments, e.g. `ValueLength.less_than(3)`, `in_range(1, 4)` -/
-  | lenOther (fn : String) (kw : List (String × Int)) (hfn : fn ≠ "equal_to" ∧ fn ≠ "in_") :
+  | lenOther (fn : String) (kw : List (String × Int)) (hfn : fn ≠ "equal_to" ∧ fn ≠ "in_")
+      (hn : ∀ p ∈ kw, p.2.natAbs < 10 ^ 4300) :
       TypeLike { cls := .valueLength, fn := fn, args := [], kwargs := kw.map (fun p => (p.1, .lit (.int p.2))) }
   /-- `Value.is_instance(T…)` / `Value.keys_is_instance(T…)` -/
   | isInstance (fn : String) (ts : List PyType) (hfn : fn = "is_instance" ∨ fn = "keys_is_instance")
@@ -52,7 +59,7 @@ theorem C20_plain_repr_total (v : PyVal) (h : PlainLit v) : ∃ s, pyRepr v = .o
   cases v <;> simp only [PlainLit] at h
   · exact ⟨_, rfl⟩
   · exact ⟨_, rfl⟩
-  · exact ⟨_, pyRepr_int _⟩
+  · exact ⟨_, pyRepr_int _ h⟩
   · simp only [pyRepr]; exact reprStr_ok _ h
   · exact pyRepr_type_ok _ h
 
@@ -75,24 +82,24 @@ theorem C20_type_text_one (l : Leaf Arg) (h : TypeLike l) : ∃ s, fmtOne l = .o
       simp only [fmtOne, preOf_dtype_ne_len cls hc, h1, h2, h3, h4, Bool.or_self, if_true, if_false,
         Bool.false_eq_true, kwValue_value, ok_bind, Py.iter, hss]
       exact ⟨_, rfl⟩
-  | lenEq n =>
-      simp only [fmtOne, preOf_valueLength_len, if_true, kwValue_value]
+  | lenEq n hn =>
+      simp only [fmtOne, preOf_valueLength_len, if_true, kwValue_value, ok_bind, pyStr_int n hn]
       exact ⟨_, rfl⟩
-  | lenIn ns =>
+  | lenIn ns hn =>
       have h1 : (("in_" : String) == "equal_to") = false := by decide
       have h4 : (("in_" : String) == "in_") = true := by decide
       have hss : (ns.map PyVal.int).mapM pyStr = .ok (ns.map toString) :=
-        mapM_map_ok_map _ _ _ ns (fun n _ => pyStr_int n)
+        mapM_map_ok_map _ _ _ ns (fun n hm => pyStr_int n (hn n hm))
       simp only [fmtOne, preOf_valueLength_len, h1, h4, if_true, if_false, Bool.false_eq_true,
         kwValue_value, ok_bind, Py.iter, hss]
       exact ⟨_, rfl⟩
-  | lenOther fn kw hfn =>
+  | lenOther fn kw hfn hn =>
       have h1 : (fn == "equal_to") = false := beq_eq_false_iff_ne.mpr hfn.1
       have h2 : (fn == "in_") = false := beq_eq_false_iff_ne.mpr hfn.2
       have hkw : (kw.map (fun p => (p.1, Arg.lit (.int p.2)))).mapM (fun kv => do
             let r ← argRepr kv.2
             pure (kv.1 ++ "=" ++ r)) = .ok (kw.map (fun p => p.1 ++ "=" ++ toString p.2)) :=
-        mapM_map_ok_map _ _ _ kw (fun p _ => by simp only [argRepr_int, ok_bind]; rfl)
+        mapM_map_ok_map _ _ _ kw (fun p hp => by simp only [argRepr_int p.2 (hn p hp), ok_bind]; rfl)
       simp only [fmtOne, preOf_valueLength_len, h1, h2, if_true, if_false, Bool.false_eq_true,
         List.mapM_nil, ok_bind, hkw]
       exact ⟨_, rfl⟩
@@ -150,11 +157,13 @@ theorem C20_type_text_is_instance (ts : List (PyType × String)) (h : ∀ p ∈ 
   simp only [fmtOne, preOf_value_ne_len, h1, h2, Bool.true_or, if_true, ha, ok_bind, hb]
   rfl
 
+-- STATEMENT CHANGED: added `hn`: `str(n)` of an int with more than 4300 digits raises ValueError;
+-- counterexample `n = 10^4300`, for which the text is `.error .valueError`.
 /-- … a length by `length: n` -/
-theorem C20_type_text_length (n : Int) :
+theorem C20_type_text_length (n : Int) (hn : n.natAbs < 10 ^ 4300) :
     fmtOne { cls := .valueLength, fn := "equal_to", args := [], kwargs := [("value", .lit (.int n))] } =
       .ok ("length: " ++ toString n) := by
-  simp only [fmtOne, preOf_valueLength_len, if_true, kwValue_value]
+  simp only [fmtOne, preOf_valueLength_len, if_true, kwValue_value, ok_bind, pyStr_int n hn]
   rfl
 
 /-- several conditions are joined with `, `; a single one stands alone -/
